@@ -4,7 +4,9 @@ import pynapple as nap
 from pynapple.core import _jitted_functions as J
 from .common import ns, ns_arr
 
-assert nap.__file__.startswith("/repo/"), "pynapple is not imported from /repo: " + nap.__file__
+import os as _os
+_REPO = _os.environ.get("PYNAPPLE_REPO", "/repo").rstrip("/") + "/"     # seeded-mutation trials point this at a scratch worktree
+assert nap.__file__.startswith(_REPO), "pynapple is not imported from %s: %s" % (_REPO, nap.__file__)
 
 
 def farr(ints, scale_ns=1):
